@@ -28,7 +28,7 @@ RULE = ("c37chain: scenarios of 1-7 signed MsgUpgrade txs on the real app over G
 def run_chain(ctx):
     ctx.rule(RULE)
     ctx.trust("restart = re-exec of harness/cmd/c37chain with -role restart on the same GoLevelDB directory (nothing touches the codec globals before NewPocketCoreApp; the command checks that itself)")
-    ctx.stream("chain-restart", "c37chain", DRIVER, n=40 if ctx.thorough else 9, timeout=3000)
+    ctx.stream("chain-restart", "c37chain", DRIVER, n=40 if ctx.thorough else 6, timeout=3000)
     if ctx.thorough:
         ctx.stream("chain-restart-deep", "c37chain", DRIVER, n=3, args=["-deep"], seed=ctx.seed + 37, timeout=6000)
 
